@@ -134,7 +134,7 @@ impl<Endpoint: Ord + Clone> BlockHandler<Endpoint> {
             .and_then(|x| x.ok());
         let maybe_response_block1 = Self::negotiate_block_size_if_necessary(
             request_block1.as_ref(),
-            Self::compute_message_size_hack(&mut request.message),
+            Self::compute_message_size_hack(&mut request.message)?,
             request.message.payload.len(),
             max_total_message_size,
         )?;
@@ -308,7 +308,7 @@ impl<Endpoint: Ord + Clone> BlockHandler<Endpoint> {
                 if let Some(request_block2) =
                     Self::negotiate_block_size_if_necessary(
                         state.last_request_block2.as_ref(),
-                        Self::compute_message_size_hack(&mut response.message),
+                        Self::compute_message_size_hack(&mut response.message)?,
                         response.message.payload.len(),
                         self.config.max_total_message_size,
                     )?
@@ -332,15 +332,18 @@ impl<Endpoint: Ord + Clone> BlockHandler<Endpoint> {
 
     /// Hack to work around the lack of an API to compute the size of a message
     /// before producing it.
-    fn compute_message_size_hack(packet: &mut Packet) -> usize {
+    fn compute_message_size_hack(
+        packet: &mut Packet,
+    ) -> Result<usize, HandlingError> {
         let moved_payload = mem::take(&mut packet.payload);
-        let size_sans_payload = packet
-            .to_bytes()
-            .expect("Internal error encoding packet")
-            .len();
+        // Only the size is of interest here, so the configured limit must
+        // not make this fail (the budget is checked by the caller).
+        let encoded = packet.to_bytes_unlimited();
         packet.payload = moved_payload;
+        let size_sans_payload =
+            encoded.map_err(HandlingError::internal)?.len();
 
-        size_sans_payload + packet.payload.len()
+        Ok(size_sans_payload + packet.payload.len())
     }
 
     fn negotiate_block_size_if_necessary(
